@@ -257,6 +257,9 @@ class SolverSeam:
                 elif fault == "S-adversarial":
                     x = _adversarial(seam, A, b, kw, spec)
                     info = 0
+                elif fault == "C-perturb":
+                    x, info = orig(A, b, x0, **kw)
+                    x = np.asarray(x, dtype=float) * (1.0 + 1e-6)
                 else:
                     raise RuntimeError(f"fault kind {fault} not applicable to iterative solver")
             seam._record(idx=idx, solver=name, kind="iterative", site=site, fault=fault,
@@ -295,6 +298,17 @@ class SolverSeam:
                     x = np.full(np.shape(b), np.nan)
                     seam._record(idx=idx, solver=name, kind="direct", site=site, fault=fault,
                                  A=None, b=np.array(b, dtype=float, copy=True), x=x.copy(), info=None, kw={})
+                    return x
+                if fault == "C-perturb":
+                    # sensitivity canary only (never used against the tree under test as a fault): a silently
+                    # wrong answer, which breaks a direct solver's contract on purpose
+                    seam.active = False
+                    try:
+                        x = np.asarray(orig(A, b, *args, **kw), dtype=float) * (1.0 + 1e-6)
+                    finally:
+                        seam.active = was
+                    seam._record(idx=idx, solver=name, kind="direct", site=site, fault=fault, A=None,
+                                 b=np.array(b, dtype=float, copy=True), x=x.copy(), info=None, kw={})
                     return x
                 raise RuntimeError(f"fault kind {fault} not applicable to direct solver")
             seam.active = False  # nested scipy-internal calls are not ours
